@@ -23,7 +23,10 @@ RULE = ("(i) every tool x writer x --backup x stale-.bak x document combination 
         "canonical syscall sequence on those paths must equal the Lean model's step list and the final bytes the model's "
         "file system; (ii) every pre-write failure cause (unmatched required path, failed --check, impossible change, "
         "undeletable root, invalid path, unreadable/invalid/missing input, merge type clash, anchor conflict with "
-        "--anchors=stop, unrenderable JSON, --output naming an existing file, bad argument combinations) x documents x "
+        "--anchors=stop, unrenderable JSON, --output naming an existing file, bad argument combinations; multi-document results "
+        "(-M merge_across|matrix_merge, 2-3 documents per side) in which ONE document - first, middle or last, of either side - "
+        "cannot be rendered as JSON (sequence/mapping/date/binary key, nested), the output being JSON through -D json, a .json "
+        "target name or flow-style roots, and type clash / anchor conflict confined to a later document) x documents x "
         "{--backup, stale .bak} : bytes of every file and the directory listing must be identical before/after and the "
         "exit status non-zero (and equal to the model's); (iii) every successful edit re-run with strace "
         "-e inject=<syscall>:error=ENOSPC|EIO:when=k for every k-th call of every syscall of the observed sequence: with "
@@ -237,6 +240,7 @@ def run_case(case):
         env["PYTHONPATH"] = core.REPO
         env[core.GUARD] = "1"
         env.pop("YPV_EYAML_LOG", None)
+        env.pop("YPV_EYAML_FAULT", None)
         try:
             p = subprocess.run(cmd, cwd=core.REPO, env=env, stdin=subprocess.DEVNULL, stdout=subprocess.PIPE,
                                stderr=subprocess.PIPE, timeout=RUN_TIMEOUT)
@@ -411,6 +415,7 @@ def prewrite_cases(tier):
                           "backup": "backup" in dest, "stale": dest.endswith("stale"), "files": files, "target": tgt,
                           "watch": [tgt, tgt + ".bak"], "ins": ["l.yaml", "r.yaml"],
                           "args": ["-S"] + extra + dargs + ["{D}/l.yaml", "{D}/r.yaml"]})
+    cases += multidoc_prewrite_cases(tier)
     # --output naming an existing file: otherwise faultless merges, and merges failing for another reason too
     for lhs, rhs, extra in ((DOC_SMALL, ok_rhs, []), (DOC_BIG, ok_rhs, []), (DOC_ANCH, ok_rhs, ["-A", "left"]),
                             (DOC_SMALL, "- a\n", []), (DOC_SMALL, None, [])):
@@ -427,6 +432,101 @@ def prewrite_cases(tier):
                   "dest": "output-new", "backup": False, "stale": False, "files": {"l.yaml": DOC_SMALL, "r.yaml": ok_rhs},
                   "target": "o.yaml", "watch": ["o.yaml", "o.yaml.bak"], "ins": ["l.yaml", "r.yaml"],
                   "args": ["-S", "-b", "-o", "{D}/o.yaml", "{D}/l.yaml", "{D}/r.yaml"]})
+    return cases
+
+
+# documents no JSON writer can render (a mapping key JSON has no spelling for): (name, block text, flow text)
+UNRENDERABLE = [
+    ("seq-key", "? [x, y]\n: 4\n", "{[x, y]: 4}\n"),
+    ("map-key", "? {k: v}\n: 4\n", "{{k: v}: 4}\n"),
+    ("date-key", "? 2001-12-14\n: 1\n", "{2001-12-14: 1}\n"),
+    ("binary-key", "? !!binary aGVsbG8=\n: 1\n", "{!!binary aGVsbG8=: 1}\n"),
+    ("nested-seq-key", "n:\n  ? [p, q]\n  : 1\n", "{n: {[p, q]: 1}}\n"),
+]
+MULTI_MODES = ("merge_across", "matrix_merge")
+# (documents in LHS, documents in RHS, side and index of the document that cannot be rendered)
+MULTI_POSITIONS = [(2, 2, "lhs", 1), (2, 2, "rhs", 1), (3, 3, "lhs", 2), (3, 3, "rhs", 1), (2, 3, "rhs", 2), (2, 2, "lhs", 0)]
+MULTI_DESTS = ("output-new", "overwrite", "overwrite-backup", "overwrite-backup-stale", "overwrite-third-backup-stale")
+
+
+def multi_text(docs):
+    return "".join("---\n" + d for d in docs)
+
+
+def merge_dest(dest, files, lhs_name, ext):
+    """(target name, destination arguments) of a yaml-merge destination class; adds the files it needs"""
+    if dest == "output-new":
+        tgt, dargs = "o" + ext, ["-o", "{D}/o" + ext]
+    elif dest.startswith("overwrite-third"):
+        tgt, dargs = "out" + ext, ["-w", "{D}/out" + ext, "-b"]
+        files[tgt] = "previous: content\n"
+    else:
+        tgt, dargs = lhs_name, ["-w", "{D}/" + lhs_name] + (["-b"] if "backup" in dest else [])
+    if dest.endswith("stale"):
+        files[tgt + ".bak"] = "STALE\n"
+    return tgt, dargs
+
+
+def multidoc_prewrite_cases(tier):
+    """Multi-document results (-M merge_across / matrix_merge) that fail before writing: ONE document - the first,
+    a middle or the last one, from either side - cannot be rendered as JSON, the output being JSON because of
+    -D json, of a .json target name, or (format auto, no telling extension) of flow-style roots; and a type
+    clash / anchor conflict confined to a later document."""
+    cases = []
+    n = 0
+    for mode in MULTI_MODES:
+        for nl, nr, side, idx in MULTI_POSITIONS:
+            for why in ("format-json", "json-target", "flow-root"):
+                for dest in MULTI_DESTS:
+                    kind, block, flow = UNRENDERABLE[(n + n // len(MULTI_DESTS)) % len(UNRENDERABLE)]
+                    n += 1
+                    fl = why == "flow-root"
+                    ldocs = [("{a%d: %d}\n" if fl else "a%d: %d\n") % (i, i) for i in range(nl)]
+                    rdocs = [("{c%d: [%d]}\n" if fl else "c%d:\n  - %d\n") % (i, i) for i in range(nr)]
+                    (ldocs if side == "lhs" else rdocs)[idx] = flow if fl else block
+                    ext = {"format-json": ".yaml", "json-target": ".json", "flow-root": ".cfg"}[why]
+                    lhs_name = "l" + ext
+                    files = {lhs_name: multi_text(ldocs), "r.yaml": multi_text(rdocs)}
+                    tgt, dargs = merge_dest(dest, files, lhs_name, ext)
+                    cases.append({"kind": "prewrite", "tool": "yaml_merge", "cause": "multidoc-unrenderable-json", "field": "renderOk",
+                                  "doc": "multi:%s:%s%d/%d+%d:%s:%s" % (mode, side, idx, nl, nr, why, kind), "dest": dest,
+                                  "backup": "backup" in dest, "stale": dest.endswith("stale"), "files": files, "target": tgt,
+                                  "watch": [tgt, tgt + ".bak"], "ins": [lhs_name, "r.yaml"],
+                                  "args": ["-S", "-M", mode] + (["-D", "json"] if why == "format-json" else []) + dargs
+                                  + ["{D}/" + lhs_name, "{D}/r.yaml"]})
+    later = [
+        ("multidoc-type-clash", ["a: 1\n", "b:\n  k: 1\n"], ["c: 3\n", "b:\n  - a\n  - b\n"], []),
+        ("multidoc-anchor-conflict-stop", ["a: 1\n", "a: &x 1\nb: *x\n"], ["c: 3\n", "c: &x 2\nd: *x\n"], ["--anchors", "stop"]),
+    ]
+    for name, ldocs, rdocs, extra in later:
+        for dest in MULTI_DESTS:
+            files = {"l.yaml": multi_text(ldocs), "r.yaml": multi_text(rdocs)}
+            tgt, dargs = merge_dest(dest, files, "l.yaml", ".yaml")
+            cases.append({"kind": "prewrite", "tool": "yaml_merge", "cause": name, "field": "applyOk", "doc": "multi", "dest": dest,
+                          "backup": "backup" in dest, "stale": dest.endswith("stale"), "files": files, "target": tgt,
+                          "watch": [tgt, tgt + ".bak"], "ins": ["l.yaml", "r.yaml"],
+                          "args": ["-S", "-M", "merge_across"] + extra + dargs + ["{D}/l.yaml", "{D}/r.yaml"]})
+    return cases
+
+
+def multidoc_success_cases(tier):
+    """multi-document results that ARE written (YAML and JSON writer of yaml-merge --overwrite)"""
+    cases = []
+    lhs = multi_text(["a: 1\nl:\n  - x\n", "b: 2\n"])
+    rhs = multi_text(["c: 3\n", "d:\n  e: 4\n"])
+    combos = [(m, j, b, s) for m in MULTI_MODES for j in (False, True) for b in (False, True) for s in (False, True)]
+    if tier == "quick":
+        combos = [("merge_across", False, True, True), ("matrix_merge", True, True, False),
+                  ("merge_across", True, False, True), ("matrix_merge", False, True, True)]
+    for mode, js, backup, stale in combos:
+        files = {"l.yaml": lhs, "r.yaml": rhs}
+        if stale:
+            files["l.yaml.bak"] = "STALE\n"
+        cases.append({"kind": "success", "tool": "yaml_merge", "writer": "mergeOverwrite", "doc": "multi-" + mode + ("-json" if js else ""),
+                      "backup": backup, "stale": stale, "files": files, "target": "l.yaml", "watch": ["l.yaml", "l.yaml.bak"],
+                      "ins": ["l.yaml", "r.yaml"],
+                      "args": ["-S", "-M", mode] + (["-D", "json"] if js else []) + ["-w", "{D}/l.yaml"] + (["-b"] if backup else [])
+                      + ["{D}/l.yaml", "{D}/r.yaml"]})
     return cases
 
 
@@ -584,7 +684,7 @@ def run(chk: core.Check):
         r1 = [res] if stage1 else []
         r2 = [res] if stage2 else []
     else:
-        stage1 = success_cases(tier) + prewrite_cases(tier)
+        stage1 = success_cases(tier) + multidoc_success_cases(tier) + prewrite_cases(tier)
         rng.shuffle(stage1)
         r1 = run_all(stage1)
         succ = [(c, r) for c, r in zip(stage1, r1) if c["kind"] == "success"]
